@@ -9,6 +9,7 @@ import (
 	"os"
 	"os/exec"
 	"reflect"
+	"runtime/debug"
 	"strconv"
 	"strings"
 	"time"
@@ -403,7 +404,9 @@ func rtIsolated(line []byte, ai int, api rtAPI, c *caseSpec) []byte {
 	return mustJSON(rtEvent{Ev: "rt", API: api.name, Hang: true, M: why, Orig: project(rv), Res: tvNode{"g": "other"}, TagKeyed: api.mode == "tags"})
 }
 
-func lastLine(s string) string {
+func lastLine(s string) string { return fatalLine(s) }
+
+func lastLineOld(s string) string {
 	for _, l := range strings.Split(s, "\n") {
 		if strings.HasPrefix(l, "fatal error") || strings.HasPrefix(l, "panic") || strings.HasPrefix(l, "runtime:") {
 			return l
@@ -414,6 +417,7 @@ func lastLine(s string) string {
 
 // rtChild: one round trip of one case through one route, in this process.
 func rtChild(args []string) {
+	debug.SetMaxStack(32 << 20) // unbounded recursion ends this child quickly
 	lines := readLines(os.Stdin)
 	var c caseSpec
 	if err := json.Unmarshal(lines[0], &c); err != nil {
